@@ -821,6 +821,10 @@ class DAGRunConcurrentManager(DAGRunManagerLike):
 
         self._node_storage.delete_active_rec_subgraph(start_from_node_id, node_id)
 
+        # The data belongs to the subgraph that has just been finished. If the start node is executed again
+        # (an outer subgraph re-iterates), it must not get the data of the previous execution.
+        self._additional_data.pop(start_from_node_id, None)
+
     async def __raise_exc(self, exc: Exception) -> None:
         """
         Raise an exception and let the run method know about the exception so the entire graph could be ended
